@@ -358,6 +358,10 @@ func c05Programs(r *findings.Run) (progs []*Prog, names []string) {
 		one("function-result", FuncDef{Name: "f", Params: []Param{{"a", TInt}}, Rets: []Type{TInt}, Body: []Stmt{Return{Vals: []Expr{Binary{Op: "+", L: Var{"a"}, R: lit(1)}}}}}, pn(Itoa{X: Call{Fn: "f", Args: []Expr{lit(4)}}}))
 		one("multi-assign", x, Define{Names: []string{"y"}, Form: DefShort, Vals: []Expr{lit(8)}}, Assign{Names: []string{"x", "y"}, Vals: []Expr{Var{"y"}, Var{"x"}}}, pn(Itoa{X: Binary{Op: "-", L: Var{"x"}, R: Var{"y"}}}))
 	}
+	// the cross-feature space (cross.go): statements of all fragments crossed with every context / with each other
+	for _, cp := range crossReduced(r.Thorough()) {
+		add("cross "+cp.name, cp.prog)
+	}
 	// panic inside a function followed by more top-level code
 	add("panic in function then top-level code", &Prog{Stmts: []Stmt{
 		FuncDef{Name: "boom", Body: []Stmt{Print{Args: []Expr{StrLit{V: "in"}}}, Panic{X: StrLit{V: "stop"}}}},
@@ -534,7 +538,7 @@ func C05() int {
 	r.Set("distinct_nontrivial", distinct.Len())
 	r.Set("distinct_expected_outputs", outcomes.Len())
 	r.Set("exhaustive", !capped)
-	r.Set("rule", "the enumerators of C01 (expression cells over 32-bit boundary valuations, control skeletons: every nesting and sequencing of up to 3 constructs), C02 (function programs), C03 (slice histories, index sweeps incl. two-digit indices) and C04 (traced operand slots) at reduced bounds; each program is transpiled to Batch by the real transpiler and executed under cmdmodel (an executable model of cmd.exe's documented rules, calibrated on every run against the Windows half of the repository's own suite); stdout lines and exit status must equal the 32-bit reference interpreter's. Runs the model refuses to decide are counted as unmodelled, never judged. Distinct by source text.")
+	r.Set("rule", "the enumerators of C01 (expression cells over 32-bit boundary valuations, control skeletons: every nesting and sequencing of up to 3 constructs), C02 (function programs), C03 (slice histories, index sweeps incl. two-digit indices) and C04 (traced operand slots) at reduced bounds, plus the cross-feature space of cross.go (every statement of all fragments in every context, every ordered pair inside a function called twice; thorough: the whole quick space of C01-C03); each program is transpiled to Batch by the real transpiler and executed under cmdmodel (an executable model of cmd.exe's documented rules, calibrated on every run against the Windows half of the repository's own suite); stdout lines and exit status must equal the 32-bit reference interpreter's. Runs the model refuses to decide are counted as unmodelled, never judged. Distinct by source text.")
 	r.Assumef("no cmd.exe exists in the sandbox: the trusted base is cmdmodel (engine/cmdmodel, ~2900 lines) whose rules are cmd.exe's documented ones and which reproduces the expected output of every modelled Windows test of the repository's suite (calibration result in coverage.calibration)")
 	r.Assumef("agreement with the Bash script follows transitively: C01-C04 compare Bash with the same reference on the same generators")
 	return finish(r)
